@@ -87,6 +87,8 @@ class Engine:
         if self.concrete is not None and name is not None and name in self.concrete:
             return self.concrete[name]
         if n <= 1:
+            if name is not None:
+                self.inputs[name] = 0
             return 0
         i = len(self.trace)
         if i < len(self.prefix):
@@ -96,6 +98,8 @@ class Engine:
             for j in range(n - 1, 0, -1):
                 self.work.append(self.trace + [j])
         self.trace.append(d)
+        if name is not None:
+            self.inputs[name] = d
         return d
 
     def assume(self, cond):
@@ -129,10 +133,24 @@ class Engine:
         return self._check(cond)
 
     def concretize(self, x, hi, lo=0):
-        """Fork over the values lo..hi of a symbolic integer (bounded, deterministic); values above hi get hi+1."""
+        """Fork over the values lo..hi of a symbolic integer (bounded, deterministic); values above hi get hi+1.
+        Candidates come from the value's finite value set / interval, so impossible values cost nothing."""
         if x.conc():
             return x.v
-        for v in range(lo, hi + 1):
+        if x.vals is not None:
+            inr = sorted(v for v in x.vals if lo <= v <= hi)
+            out = any(not (lo <= v <= hi) for v in x.vals)
+            for n_, v in enumerate(inr):
+                if n_ == len(inr) - 1 and not out:
+                    self.assume(x.z() == z3.BitVecVal(v, x.w)) if False else None
+                    return v
+                if self.branch(x.z() == z3.BitVecVal(v, x.w)):
+                    return v
+            return hi + 1
+        lo2, hi2 = max(lo, x.lo), min(hi, x.hi)
+        for v in range(lo2, hi2 + 1):
+            if v == hi2 and x.hi <= hi and x.lo >= lo:
+                return v
             if self.branch(x.z() == z3.BitVecVal(v, x.w)):
                 return v
         return hi + 1
@@ -142,7 +160,14 @@ class Engine:
         if self.concrete is not None:
             v = Int(w, int(signed), int(self.concrete[name]))
         else:
-            z = z3.BitVec(name, w); v = Int(w, int(signed), z)
+            z = z3.BitVec(name, w)
+            blo = bhi = None
+            if not signed:
+                if among is not None:
+                    blo, bhi = min(among), max(among)
+                else:
+                    blo, bhi = lo, hi
+            v = Int(w, int(signed), z, blo, bhi)
             if among is not None:
                 self.solver.add(z3.Or([z == a for a in among]))
             if lo is not None:
@@ -174,7 +199,7 @@ class Engine:
                     self.solver.add(z3.UGE(z, lo))
                 if hi is not None:
                     self.solver.add(z3.ULE(z, hi))
-                vals.append(Int(8, 0, z))
+                vals.append(Int(8, 0, z, min(among) if among is not None else lo, max(among) if among is not None else hi))
         self.inputs[name] = vals
         return vals
 
@@ -196,6 +221,8 @@ class Engine:
                 return [ev(x) for x in v]
             if isinstance(v, dict):
                 return {k: ev(x) for k, x in v.items()}
+            if callable(v):
+                return v(self, m)
             return v
         return {k: ev(v) for k, v in self.inputs.items()}
 
@@ -290,7 +317,11 @@ class Engine:
             res = seq[hi - 1].z()
             for k in range(hi - 2, lo - 1, -1):
                 res = z3.If(i.z() == (k - lo), seq[k].z(), res)
-            return mk(e0.w, e0.s, res)
+            sets = [x.valset() for x in seq[lo:hi]]
+            vs = frozenset().union(*sets) if all(t is not None for t in sets) else None
+            if vs is not None and len(vs) > 96:
+                vs = None
+            return mk(e0.w, e0.s, res, min(x.lo for x in seq[lo:hi]), max(x.hi for x in seq[lo:hi]), vs)
         if all(isinstance(e, bool) or z3.is_expr(e) for e in seq[lo:hi]):
             res = zbool(seq[hi - 1])
             for k in range(hi - 2, lo - 1, -1):
@@ -336,7 +367,7 @@ class Engine:
                 seq[off + i] = val
             elif isinstance(val, Int) and all(isinstance(e, Int) for e in seq[off:end]):
                 for j in range(off, end):
-                    seq[j] = mk(val.w, val.s, z3.If(i.z() == (j - off), val.z(), seq[j].z()))
+                    seq[j] = mk(val.w, val.s, z3.If(i.z() == (j - off), val.z(), seq[j].z()), min(val.lo, seq[j].lo), max(val.hi, seq[j].hi))
             else:
                 j = self.concretize(i, end - off - 1)
                 seq[off + j] = val
@@ -547,19 +578,78 @@ class Engine:
             if op == "Ge": return x >= y
             if op == "Cmp": return Agg([], variant=(x > y) - (x < y), ty="Ordering")
             raise Unsupported("binop " + op)
+        M = (1 << w) - 1
+        alo, ahi, blo, bhi = a.lo, a.hi, b.lo, b.hi
+        # ---- finite value sets: evaluate the operation on every candidate
+        vs = None
+        av, bv = a.valset(), b.valset()
+        if av is not None and bv is not None and len(av) * len(bv) <= 96 and op != "Cmp":
+            try:
+                res = [self.binop(op, Int(w, s, x_), Int(b.w, b.s, y_)) for x_ in av for y_ in bv]
+            except Panic:
+                res = None
+            if res is not None:
+                if isinstance(res[0], bool):
+                    if all(res): return True
+                    if not any(res): return False
+                else:
+                    vs = frozenset(r_.v for r_ in res)
+        # ---- comparisons decided by intervals (no term, no query)
+        if op in ("Eq", "Ne", "Lt", "Le", "Gt", "Ge"):
+            usable = (not s) or (a.nonneg() and b.nonneg())
+            if usable:
+                if op == "Lt":
+                    if ahi < blo: return True
+                    if alo >= bhi: return False
+                elif op == "Le":
+                    if ahi <= blo: return True
+                    if alo > bhi: return False
+                elif op == "Gt":
+                    if alo > bhi: return True
+                    if ahi <= blo: return False
+                elif op == "Ge":
+                    if alo >= bhi: return True
+                    if ahi < blo: return False
+            if ahi < blo or bhi < alo:
+                if op == "Eq": return False
+                if op == "Ne": return True
         x, y = a.z(), b.z()
+        lo = hi = None
         if op in ("Shl", "Shr"):
             if b.w != w:
                 y = z3.ZeroExt(w - b.w, y) if b.w < w else z3.Extract(w - 1, 0, y)
             y = y & (w - 1)
-        if op == "Add": r = x + y
-        elif op == "Sub": r = x - y
-        elif op == "Mul": r = x * y
-        elif op == "Div": r = (x / y) if s else z3.UDiv(x, y)
-        elif op == "Rem": r = z3.SRem(x, y) if s else z3.URem(x, y)
-        elif op == "BitAnd": r = x & y
-        elif op == "BitOr": r = x | y
-        elif op == "BitXor": r = x ^ y
+            if b.conc():
+                sh = b.v % w
+                if op == "Shl" and (ahi << sh) <= M:
+                    lo, hi = alo << sh, ahi << sh
+                elif op == "Shr" and (not s or a.nonneg()):
+                    lo, hi = alo >> sh, ahi >> sh
+        if op == "Add":
+            r = x + y
+            if ahi + bhi <= M: lo, hi = alo + blo, ahi + bhi
+        elif op == "Sub":
+            r = x - y
+            if alo >= bhi: lo, hi = alo - bhi, ahi - blo
+        elif op == "Mul":
+            r = x * y
+            if ahi * bhi <= M: lo, hi = alo * blo, ahi * bhi
+        elif op == "Div":
+            if isinstance(b.v, int) and b.v == 0:
+                raise Panic("div_by_zero", "binop", "division by zero")
+            r = (x / y) if s else z3.UDiv(x, y)
+            if blo > 0 and (not s or (a.nonneg() and b.nonneg())): lo, hi = alo // bhi, ahi // blo
+        elif op == "Rem":
+            if isinstance(b.v, int) and b.v == 0:
+                raise Panic("div_by_zero", "binop", "remainder by zero")
+            r = z3.SRem(x, y) if s else z3.URem(x, y)
+            if blo > 0 and (not s or (a.nonneg() and b.nonneg())): lo, hi = 0, min(ahi, bhi - 1)
+        elif op == "BitAnd":
+            r = x & y; lo, hi = 0, min(ahi, bhi)
+        elif op == "BitOr":
+            r = x | y; lo, hi = max(alo, blo), min(M, (1 << max(ahi.bit_length(), bhi.bit_length())) - 1)
+        elif op == "BitXor":
+            r = x ^ y; lo, hi = 0, min(M, (1 << max(ahi.bit_length(), bhi.bit_length())) - 1)
         elif op == "Shl": r = x << y
         elif op == "Shr": r = (x >> y) if s else z3.LShR(x, y)
         elif op == "Eq": return mkbool(x == y)
@@ -569,13 +659,13 @@ class Engine:
         elif op == "Gt": return mkbool((x > y) if s else z3.UGT(x, y))
         elif op == "Ge": return mkbool((x >= y) if s else z3.UGE(x, y))
         elif op == "Cmp":
-            lt = self.branch((x < y) if s else z3.ULT(x, y))
+            lt = self.branch(self.binop("Lt", a, b))
             if lt:
                 return Agg([], variant=-1, ty="Ordering")
-            return Agg([], variant=0 if self.branch(x == y) else 1, ty="Ordering")
+            return Agg([], variant=0 if self.branch(self.binop("Eq", a, b)) else 1, ty="Ordering")
         else:
             raise Unsupported("binop " + op)
-        return mk(w, s, r)
+        return mk(w, s, r, lo, hi, vs)
 
     def checked(self, op, a, b):
         w, s = a.w, a.s
@@ -585,16 +675,43 @@ class Engine:
             lo, hi = (-(1 << (w - 1)), (1 << (w - 1)) - 1) if s else (0, (1 << w) - 1)
             return Agg([Int(w, s, r), not (lo <= r <= hi)], ty="tuple")
         x, y = a.z(), b.z()
+        M = (1 << w) - 1; H = (1 << (w - 1)) - 1
+        alo, ahi, blo, bhi = a.lo, a.hi, b.lo, b.hi
+        lo = hi = None; ov = None; vs = None
+        av, bv = a.valset(), b.valset()
+        if av is not None and bv is not None and len(av) * len(bv) <= 96:
+            rs = [self.checked(op, Int(w, s, x_), Int(w, s, y_)) for x_ in av for y_ in bv]
+            vs = frozenset(r_.f[0].v for r_ in rs)
+            if not any(r_.f[1] for r_ in rs):
+                ov = False
+            elif all(r_.f[1] for r_ in rs):
+                ov = True
+        if ov is not None:
+            res = {"Add": x + y, "Sub": x - y, "Mul": x * y}[op]
+            return Agg([mk(w, s, res, None, None, vs), ov], ty="tuple")
         if op == "Add":
             res = x + y
-            ov = z3.Not(z3.And(z3.BVAddNoOverflow(x, y, bool(s)), z3.BVAddNoUnderflow(x, y))) if s else z3.Not(z3.BVAddNoOverflow(x, y, False))
+            if not s and ahi + bhi <= M: ov, lo, hi = False, alo + blo, ahi + bhi
+            elif s and a.nonneg() and b.nonneg() and ahi + bhi <= H: ov, lo, hi = False, alo + blo, ahi + bhi
+            elif not s and alo + blo > M: ov = True
+            if ov is None:
+                ov = z3.Not(z3.And(z3.BVAddNoOverflow(x, y, True), z3.BVAddNoUnderflow(x, y))) if s else z3.Not(z3.BVAddNoOverflow(x, y, False))
         elif op == "Sub":
             res = x - y
-            ov = z3.Not(z3.And(z3.BVSubNoOverflow(x, y), z3.BVSubNoUnderflow(x, y, True))) if s else z3.ULT(x, y)
+            if not s and alo >= bhi: ov, lo, hi = False, alo - bhi, ahi - blo
+            elif not s and ahi < blo: ov = True
+            elif s and a.nonneg() and b.nonneg():
+                ov = False
+                if alo >= bhi: lo, hi = alo - bhi, ahi - blo
+            if ov is None:
+                ov = z3.Not(z3.And(z3.BVSubNoOverflow(x, y), z3.BVSubNoUnderflow(x, y, True))) if s else z3.ULT(x, y)
         else:
             res = x * y
-            ov = z3.Not(z3.And(z3.BVMulNoOverflow(x, y, bool(s)), z3.BVMulNoUnderflow(x, y))) if s else z3.Not(z3.BVMulNoOverflow(x, y, False))
-        return Agg([mk(w, s, res), mkbool(ov)], ty="tuple")
+            if not s and ahi * bhi <= M: ov, lo, hi = False, alo * blo, ahi * bhi
+            elif s and a.nonneg() and b.nonneg() and ahi * bhi <= H: ov, lo, hi = False, alo * blo, ahi * bhi
+            if ov is None:
+                ov = z3.Not(z3.And(z3.BVMulNoOverflow(x, y, True), z3.BVMulNoUnderflow(x, y))) if s else z3.Not(z3.BVMulNoOverflow(x, y, False))
+        return Agg([mk(w, s, res, lo, hi, vs), ov if isinstance(ov, bool) else mkbool(ov)], ty="tuple")
 
     def cast(self, kind, v, ty):
         if kind in ("IntToInt", "IntToFloat", "FloatToInt", "FloatToFloat"):
@@ -613,16 +730,25 @@ class Engine:
             if isinstance(v, Int):
                 if v.conc():
                     return Int(w, s, v.sval())
-                z = v.v
+                z = v.v; lo = hi = None
                 if w < v.w:
                     z = z3.Extract(w - 1, 0, z)
+                    if v.hi < (1 << w): lo, hi = v.lo, v.hi
                 elif w > v.w:
-                    z = z3.SignExt(w - v.w, z) if v.s else z3.ZeroExt(w - v.w, z)
-                return mk(w, s, z)
+                    if v.s and not v.nonneg():
+                        z = z3.SignExt(w - v.w, z)
+                    else:
+                        z = z3.ZeroExt(w - v.w, z); lo, hi = v.lo, v.hi
+                else:
+                    lo, hi = v.lo, v.hi
+                vs = None
+                if v.vals is not None:
+                    vs = frozenset(Int(w, s, Int(v.w, v.s, x_).sval()).v for x_ in v.vals)
+                return mk(w, s, z, lo, hi, vs)
             if isinstance(v, Agg) and v.variant is not None and not v.f:      # fieldless enum as integer
                 return Int(w, s, v.variant)
             if z3.is_expr(v):
-                return mk(w, s, z3.If(v, z3.BitVecVal(1, w), z3.BitVecVal(0, w)))
+                return mk(w, s, z3.If(v, z3.BitVecVal(1, w), z3.BitVecVal(0, w)), 0, 1)
             raise Unsupported(f"cast {v!r} to {ty}")
         if kind == "PointerCoercion":
             if isinstance(v, Ref) and re.match(r"^(&|\*)(?:'\w+ )?(?:mut |const )?\[", ty):
@@ -895,7 +1021,7 @@ class Engine:
                 for kv, d in reversed(cases):
                     zv = vals[d].z() if isint else zbool(vals[d])
                     z = z3.If(v.z() == z3.BitVecVal(kv, v.w), zv, z)
-                fr.loc[dest_local].v = mk(res.w, res.s, z) if isint else mkbool(z)
+                fr.loc[dest_local].v = mk(res.w, res.s, z, min(x.lo for x in vals.values()), max(x.hi for x in vals.values())) if isint else mkbool(z)
                 return join
         if isinstance(v, Int):
             for kv, d in cases:
@@ -1037,3 +1163,24 @@ Engine.ref_to = _ref_to
 Engine.slice_of = _slice_of
 Engine.vec_items = _vec_items
 Engine.eq_bytes = _eq_bytes
+
+
+def _struct(self, name, **fields):
+    """Struct value with fields placed by the declaration order read from the crate source."""
+    order = self.p.structs[name]
+    assert set(fields) == set(order), (name, order, list(fields))
+    return Agg([fields[f] for f in order], None, name)
+
+
+def _field(self, agg, struct, fname):
+    return agg.f[self.p.structs[struct].index(fname)]
+
+
+def _stub(self, pattern, fn):
+    self.stubs.append((re.compile(pattern), fn))
+    self.call_cache = {}
+
+
+Engine.struct = _struct
+Engine.field = _field
+Engine.stub = _stub
